@@ -146,17 +146,19 @@ pub struct GenCfg {
     pub big: bool,
     /// probability (per mille) that a predicate/object is itself complex
     pub complex_parts: u32,
+    /// occasionally produce wide nodes (7..64 assertions)
+    pub wide: bool,
 }
 
 impl GenCfg {
     pub fn small() -> Self {
-        GenCfg { max_depth: 3, max_assertions: 3, node_subject: false, markers: true, big: false, complex_parts: 250 }
+        GenCfg { max_depth: 3, max_assertions: 3, node_subject: false, markers: true, big: false, complex_parts: 250, wide: true }
     }
     pub fn medium() -> Self {
-        GenCfg { max_depth: 4, max_assertions: 5, node_subject: false, markers: true, big: true, complex_parts: 300 }
+        GenCfg { max_depth: 4, max_assertions: 5, node_subject: false, markers: true, big: true, complex_parts: 300, wide: true }
     }
     pub fn large() -> Self {
-        GenCfg { max_depth: 7, max_assertions: 12, node_subject: false, markers: true, big: true, complex_parts: 300 }
+        GenCfg { max_depth: 7, max_assertions: 12, node_subject: false, markers: true, big: true, complex_parts: 300, wide: true }
     }
 }
 
@@ -169,7 +171,7 @@ pub struct Gen<'a> {
     pub pool: Vec<M>,
 }
 
-const UINTS: [u64; 14] = [0, 1, 23, 24, 255, 256, 65535, 65536, 0xffff_ffff, 0x1_0000_0000, i64::MAX as u64, 1 << 63, u64::MAX - 1, u64::MAX];
+const UINTS: [u64; 19] = [0, 1, 23, 24, 255, 256, 65535, 65536, 0x8000_0000, 0xC000_0000, 0xffff_ff00, 0xffff_ffff, 0x1_0000_0000, 1 << 53, i64::MAX as u64, 1 << 63, (1 << 63) + 2048, u64::MAX - 1, u64::MAX];
 const NINTS: [u64; 9] = [0, 23, 24, 255, 256, 65535, 65536, 0x8000_0000, i64::MAX as u64];
 const FLOATS: [f64; 16] = [
     1.5, -1.5, 0.1, 1.1, 65504.0 + 0.5, 5.960464477539063e-8, 3.4028234663852886e38, 1.0e300, -1.0e300, f64::INFINITY, f64::NEG_INFINITY, f64::NAN, 2.5, 1.0e-10, 100000.25,
@@ -296,7 +298,14 @@ impl<'a> Gen<'a> {
     }
 
     pub fn node(&mut self, depth: usize) -> M {
-        let n = self.rng.range(1, self.cfg.max_assertions.max(1));
+        let mut n = self.rng.range(1, self.cfg.max_assertions.max(1));
+        // now and then a wide node, at and around power-of-two widths
+        if self.cfg.wide && self.rng.chance(1, 40) {
+            n = *self.rng.pick(&[7usize, 8, 9, 15, 16, 17, 31, 32, 33, 64]);
+            let subject = self.leaf_or_known();
+            let asr: Vec<M> = (0..n).map(|i| M::Assertion(Box::new(M::Leaf(Item::UInt(i as u64))), Box::new(self.part(0)))).collect();
+            return M::Node(Box::new(subject), asr);
+        }
         let subject = if self.cfg.node_subject && depth > 0 && self.rng.chance(1, 8) {
             self.node(depth - 1)
         } else {
